@@ -30,7 +30,22 @@ def run_history(hist, props=None):
         items = Tags.itemize
         lookup = lambda n: getattr(Tags, n)          # noqa: E731
     else:
-        lib = Tags.TagLibrary()
+        if where == 'sub':
+            # a user library class with members of its own (a method, a class attribute, a property): names that would
+            # collide with them are rejected like the names of the base class's members
+            class UserLib(Tags.TagLibrary):
+                _verif_user = True
+                COLOR = 'red'
+
+                def describe(self):
+                    return 'user library'
+
+                @property
+                def size(self):
+                    return 'big'
+            lib = UserLib()
+        else:
+            lib = Tags.TagLibrary()
         add = lambda n: lib.add_tag(n)               # noqa: E731
         name_of = lambda i: lib.get_tag_name(i)      # noqa: E731
         items = lambda: lib.itemize()                # noqa: E731
@@ -50,7 +65,7 @@ def run_history(hist, props=None):
                     names.append(n)
                 except Tags.DuplicateTagError:
                     # a rejected name changes nothing (checked below); a fresh ordinary name must be accepted
-                    if n not in names and not hasattr(Tags.TagLibrary, n) and n not in ('_tag_names', '_tag_counter') \
+                    if n not in names and not hasattr(type(lib), n) and n not in ('_tag_names', '_tag_counter') \
                             and not (where == 'global' and n in vars(Tags)):
                         out.append(('C19', f'{w}: fresh name {n!r} rejected'))
             elif op[0] == 'other_add':
@@ -117,6 +132,9 @@ def histories(seed, budget, prop='C19'):
             yield (where, [('add', 'A'), ('add', n), ('add', 'B'), ('add', n), ('name', 2), ('lookup', 'B'),
                            ('lookup', n), ('other_add', n), ('add', 'C'), ('lookup', n), ('len',)])
         yield (where, [('lookup', 'nope'), ('lookup', '_tag_names'), ('lookup', '_tag_counter')])
+    for n in ('size', 'describe', 'COLOR', 'A', 'add_tag', '__len__'):
+        yield ('sub', [('add', 'A'), ('add', n), ('add', 'B'), ('lookup', n), ('lookup', 'B'), ('name', 2), ('add', n),
+                       ('other_add', n), ('lookup', n)])
     for _ in range(budget):
         ops = []
         for _ in range(rng.randint(2, 12)):
